@@ -11,6 +11,7 @@ package main
 
 import (
 	"fmt"
+	"net"
 	"net/http"
 	"net/url"
 	"os"
@@ -110,7 +111,10 @@ func (s c02IdentState) accounts() []verifUser {
 	return append(l, s.extraAccounts...)
 }
 
-var c02IdentKinds = []string{"", "login-form", "login-basic", "basic", "client-certificate"}
+var c02IdentKinds = []string{"", "login-form", "login-basic", "basic", "client-certificate", "ip-restricted-certificate"}
+
+// automation_users of the identity states: exact strings, one of them not in lower case
+var c02AutomationUsers = []string{"svc-automation", "Deploy-Bot"}
 
 type c02Spelling struct {
 	family string
@@ -167,6 +171,7 @@ func c02IdentSetup(t *testing.T, s c02IdentState) (*verifEnv, *c02RecordingCheck
 		c.Base.AllowedAuthBackendsForCerts = []string{"password"}
 		c.Base.KerberosRealm = s.realm
 		c.Base.DisableUsernameNormalization = s.noNorm
+		c.Base.AutomationUsers = c02AutomationUsers
 		var sb strings.Builder
 		for _, u := range append(append([]verifUser{}, c02ExtraUsers...), s.extraAccounts...) {
 			sb.WriteString(u.name + ":" + c02Bcrypt(u.password) + "\n")
@@ -209,6 +214,9 @@ func c02IdentFamily(t *testing.T, res *verifResult, keys []*c02Key, hit func(key
 		}
 		run := func(kind int, family, account, typed, pw, target string, typ, ki int) {
 			rec.take()
+			if (len(cases)/3)%2 == 1 {
+				ki = 0 // RSA 2048 for every other triple of cases
+			}
 			cs := c02IdentCase{state: si, kind: kind, family: family, account: account, typed: typed, pw: pw, target: target, typ: typ, key: ki}
 			k := keys[ki]
 			keyData := k.sshPub
@@ -241,6 +249,8 @@ func c02IdentFamily(t *testing.T, res *verifResult, keys []*c02Key, hit func(key
 				req.SetBasicAuth(typed, pw)
 			case 4:
 				withTLS(req, env.keymasterChain(typed, time.Now().Add(-time.Minute), keys[3].pub), "")
+			case 5:
+				withTLS(req, env.ipRestrictedChain(typed, []net.IPNet{mustCIDR("10.0.0.0/8")}, keys[3].pub), "10.1.2.3:34567")
 			}
 			rr, _ := env.serve(req)
 			cs.obs = c02Decode(rr.Body.Bytes(), rr.Code, keys, pubd)
@@ -263,6 +273,15 @@ func c02IdentFamily(t *testing.T, res *verifResult, keys []*c02Key, hit func(key
 			ob := map[string]interface{}{"status": cs.obs.status, "names": cs.obs.names, "backend_asked_about": cs.asked, "session_subject": cs.subject}
 			if kind == 4 {
 				accepted = map[string]bool{typed: true}
+			}
+			if kind == 5 {
+				// the authenticated user of an IP-restricted certificate: its common name, which must be a configured automation user
+				accepted = map[string]bool{}
+				for _, au := range c02AutomationUsers {
+					if au == typed {
+						accepted[typed] = true
+					}
+				}
 			}
 			if cs.hasSub && !accepted[cs.subject] {
 				hit("identity:"+kn+":session-subject-not-verified-account", "the session a login mints is for the account whose password the backend accepted",
@@ -327,8 +346,27 @@ func c02IdentFamily(t *testing.T, res *verifResult, keys []*c02Key, hit func(key
 				}
 			}
 		}
+		// IP-restricted automation certificates: the common name is compared with automation_users byte for byte
+		for _, a := range c02AutomationUsers {
+			for pi, sp := range c02Spellings(a) {
+				if !verifThorough() && pi > 4 && pi != 8 {
+					continue
+				}
+				targets := []string{sp.typed}
+				if sp.typed != a {
+					targets = append(targets, a)
+				}
+				if l := strings.ToLower(sp.typed); l != sp.typed && l != a {
+					targets = append(targets, l)
+				}
+				for _, tg := range targets {
+					n++
+					run(5, sp.family, a, sp.typed, "", tg, n%3, 3)
+				}
+			}
+		}
 		// the empty name
-		for kind := 1; kind <= 4; kind++ {
+		for kind := 1; kind <= 5; kind++ {
 			run(kind, "empty-name", "", "", "alicepw", "alice", 0, 3)
 		}
 	}
@@ -353,7 +391,12 @@ func c02IdentCoq(cases []c02IdentCase, states []c02IdentState, keys []*c02Key, h
 		}
 		sb.WriteString(fmt.Sprintf("Definition ident_accounts_%d : list (bs * bs) := [%s].\n", si, strings.Join(p, "; ")))
 	}
-	sb.WriteString("Definition imk (okta dis : bool) (realm : option bs) (acc : list (bs * bs)) (kind : N) (typed pw tg : bs) (ty : N) (k : option (N * bool)) (asked : list bs) (sub : option bs) (o : observed) : identcase :=\n  {| i_host := " + coqBS(host) + "; i_okta := okta; i_disable := dis; i_realm := realm; i_accounts := acc; i_kind := kind; i_typed := typed; i_pw := pw; i_target := tg; i_type := ty; i_key := k; i_asked := asked; i_subject := sub; i_obs := o |}.\n")
+	var au []string
+	for _, a := range c02AutomationUsers {
+		au = append(au, coqBS(a))
+	}
+	sb.WriteString("Definition ident_automation : list bs := [" + strings.Join(au, "; ") + "].\n")
+	sb.WriteString("Definition imk (okta dis : bool) (realm : option bs) (acc : list (bs * bs)) (kind : N) (typed pw tg : bs) (ty : N) (k : option (N * bool)) (asked : list bs) (sub : option bs) (o : observed) : identcase :=\n  {| i_host := " + coqBS(host) + "; i_okta := okta; i_disable := dis; i_realm := realm; i_accounts := acc; i_automation := ident_automation; i_kind := kind; i_typed := typed; i_pw := pw; i_target := tg; i_type := ty; i_key := k; i_asked := asked; i_subject := sub; i_obs := o |}.\n")
 	sb.WriteString("Definition ident_cases : list identcase := [\n")
 	for i, cs := range cases {
 		s := states[cs.state]
